@@ -111,14 +111,62 @@ func (fc *FuncCtx) evalCallInner(call *ast.CallExpr, st *St) []Term {
 	// call of a function value (callback parameter, local closure, immediately invoked literal)
 	fv := fc.eval(fun, st)
 	if fv.Fn == nil {
-		fc.unsupported(st, "call of an unknown function value", fc.pos(call))
-		return fc.deadResults(call)
+		return fc.callUnknownFuncVal(call, st)
 	}
 	var args []Term
 	for _, a := range call.Args {
 		args = append(args, fc.evalMulti(a, st)...)
 	}
 	return fc.callFuncVal(fv.Fn, args, call, st)
+}
+
+// callUnknownFuncVal models the call of a function value about which nothing is known (a value read from a
+// data structure): it may panic, may change every heap, map, buffer and declared global, and returns
+// arbitrary values of its result types.  Only a caller whose contract says `panics may` (and has no
+// onpanic clauses) can absorb that; otherwise the construct stays unsupported (fail closed).
+func (fc *FuncCtx) callUnknownFuncVal(call *ast.CallExpr, st *St) []Term {
+	if fc.Con.Panics != "may" || len(fc.Con.OnPanic) > 0 {
+		fc.unsupported(st, "call of an unknown function value", fc.pos(call))
+		return fc.deadResults(call)
+	}
+	for _, a := range call.Args {
+		fc.evalMulti(a, st)
+	}
+	if st.dead {
+		return fc.deadResults(call)
+	}
+	nn := fc.fresh("next", SInt)
+	st.assume(Le(st.next, nn))
+	st.next = nn
+	if fc.SliceMode == "heap" {
+		for _, es := range fc.heapElems {
+			fc.heapOf(st, es)
+			st.heaps[es.SMT()] = fc.fresh("heap", heapSort(es))
+		}
+		st.mine = fc.fresh("mine", st.mine.Sort)
+	}
+	fc.materialiseStores(st, true, true)
+	for k := range st.mdom {
+		st.mdom[k] = fc.fresh("mdom", st.mdom[k].Sort)
+	}
+	for k := range st.mval {
+		st.mval[k] = fc.fresh("mval", st.mval[k].Sort)
+	}
+	st.bufh = fc.fresh("bufh", st.bufh.Sort)
+	fc.materialiseGlobals(st)
+	for g := range st.glob {
+		st.glob[g] = fc.fresh("glob_"+g, st.glob[g].Sort)
+	}
+	fc.unknownCalls++
+	t := fc.typeOf(call)
+	if tup, ok := t.(*types.Tuple); ok {
+		var r []Term
+		for i := 0; i < tup.Len(); i++ {
+			r = append(r, fc.fresh("unk", fc.sortOf(tup.At(i).Type())))
+		}
+		return r
+	}
+	return []Term{fc.fresh("unk", fc.sortOf(t))}
 }
 
 func (fc *FuncCtx) deadResults(call *ast.CallExpr) []Term {
@@ -498,9 +546,26 @@ func (fc *FuncCtx) callNamed(key string, fn *types.Func, args []Term, call *ast.
 		}
 	}
 	// a call site the caller's contract asks to inline (the callee's loops get call-site invariants)
-	if call != nil && ref != nil && ref.Decl.Body != nil && fc.inlineSite == "" {
-		site := fmt.Sprintf("%s#%d", fc.callName[call], fc.callOrd[call])
-		if _, named := fc.callName[call]; named && fc.Con.InlineAt[site] {
+	if ref != nil && ref.Decl.Body != nil && fc.inlineSite == "" {
+		site := ""
+		named := false
+		if call != nil {
+			site = fmt.Sprintf("%s#%d", fc.callName[call], fc.callOrd[call])
+			_, named = fc.callName[call]
+		}
+		if !(named && fc.Con.InlineAt[site]) {
+			// `inline-call F` (no ordinal): every call of F reached while executing this function, also through
+			// inlined helpers, is inlined with the loop invariants `loop F/n`
+			short := key
+			if i := strings.LastIndex(short, "."); i >= 0 {
+				short = short[i+1:]
+			}
+			if fc.Con.InlineAt[short] {
+				site = short
+				named = true
+			}
+		}
+		if named && fc.Con.InlineAt[site] {
 			fc.Deps[key+" (body inlined at call site "+site+" with call-site loop invariants)"] = true
 			save := fc.inlineSite
 			fc.inlineSite = site
@@ -1043,6 +1108,7 @@ func (fc *FuncCtx) callByContract(con *Contract, ref *FuncRef, fn *types.Func, a
 				}
 			} else if m == "maps" || m == "heap" || m == "bufs" {
 				// conservatively unknown after a panic inside the callee
+				fc.materialiseStores(s2, true, false)
 				for k := range s2.mdom {
 					s2.mdom[k] = fc.fresh("mdom", s2.mdom[k].Sort)
 				}
@@ -1119,6 +1185,8 @@ func (fc *FuncCtx) callByContract(con *Contract, ref *FuncRef, fn *types.Func, a
 			nn := fc.fresh("next", SInt)
 			st.assume(Le(st.next, nn))
 			st.next = nn
+			fc.materialiseStores(st, true, false)
+			fc.materialiseStores(pre, true, false)
 			for k := range st.mdom {
 				so := st.mdom[k].Sort
 				st.mdom[k] = fc.fresh("mdom", so)
